@@ -44,7 +44,11 @@ var c12Ops = []c12Op{
 		Resps: []c12Resp{{Code: "200", Media: []string{"application/json", "text/plain"}}, {Code: "400", Media: []string{"application/problem+json"}}}},
 	{ID: "PVendor", Method: "put", Path: "/vendor", Bodies: []string{"application/merge-patch+json"},
 		Resps: []c12Resp{{Code: "200", Media: []string{"application/json"}}, {Code: "5XX", Media: []string{"application/json"}},
-			{Code: "203", Media: []string{"application/*+json"}}, {Code: "409", Ref: "Wild", Media: []string{"application/*+json"}}}},
+			{Code: "203", Media: []string{"application/*+json"}}, {Code: "409", Ref: "Wild", Media: []string{"application/*+json"}},
+			// a JSON media type that carries a parameter is still JSON
+			{Code: "202", Media: []string{"application/vnd.api+json; charset=utf-8"}}}},
+	{ID: "PVendorP", Method: "put", Path: "/vendorp", Bodies: []string{"application/vnd.api+json; charset=utf-8"},
+		Resps: []c12Resp{{Code: "200", Media: []string{"application/json"}}}},
 	{ID: "PRaw", Method: "post", Path: "/raw", Bodies: []string{"application/octet-stream"},
 		Resps: []c12Resp{{Code: "200", Media: []string{"image/*"}}, {Code: "default"}}},
 	// multipart bodies: form-data goes through the framework's own reader, any other multipart/* through a
@@ -206,7 +210,10 @@ func c12Multipart(a, n string) (param, body string) {
 	return "; boundary=" + b, part("a", a) + part("n", n) + "--" + b + "--\r\n"
 }
 
+func c12Base(m string) string { return strings.TrimSpace(strings.SplitN(m, ";", 2)[0]) }
+
 func c12ReqClass(m string) int {
+	m = c12Base(m)
 	switch {
 	case m == "":
 		return 0
@@ -227,6 +234,7 @@ func c12ReqClass(m string) int {
 }
 
 func c12RespClass(m string) int {
+	m = c12Base(m)
 	switch {
 	case m == "":
 		return 0
@@ -417,7 +425,7 @@ func c12Body(ctx *Ctx, rows *c12Rows) error {
 					if o.Bodies[0] != "application/json" && len(o.Bodies) == 1 {
 						req["headers"] = [][2]string{{"Content-Type", o.Bodies[0]}}
 						req["body"] = "a=x&n=1"
-						if strings.HasSuffix(o.Bodies[0], "+json") {
+						if strings.HasSuffix(c12Base(o.Bodies[0]), "+json") {
 							req["body"] = `{"a":"x","n":1}`
 						}
 						if strings.HasPrefix(o.Bodies[0], "multipart/") {
@@ -473,7 +481,7 @@ func c12Body(ctx *Ctx, rows *c12Rows) error {
 				gotCT := strings.Join(hdr["content-type"], ",")
 				if media != "" {
 					base := strings.TrimSpace(strings.SplitN(gotCT, ";", 2)[0])
-					if base != wantCT {
+					if base != c12Base(wantCT) {
 						rrow.CTOk = false
 						ctx.Res.Violate("response-content-type:"+sigc, fmt.Sprintf("%s written with Content-Type %q, declared/supplied %q", tn, gotCT, wantCT), replay)
 					}
@@ -581,7 +589,7 @@ func c12CheckBody(media string, reply map[string]interface{}, body string) strin
 		if body != "" {
 			return fmt.Sprintf("a response without content is written with body %q", clip(body, 80))
 		}
-	case media == "application/json" || strings.HasSuffix(media, "+json"):
+	case media == "application/json" || strings.HasSuffix(c12Base(media), "+json"):
 		want, _ := json.Marshal(c12JSONView(val))
 		if !jsonEqual(body, string(want)) {
 			return fmt.Sprintf("body %s is not the JSON encoding of the returned value %s", clip(body, 120), clip(string(want), 120))
